@@ -19,7 +19,9 @@ CONSTANTS Unparkers,      \* set of unparker ids
           WithCancel,     \* BOOLEAN: is there a canceller
           CheckCancel,    \* BOOLEAN: Park.check_cancel (FALSE for SyncBlocker's parks)
           Recheck,        \* BOOLEAN: TRUE = code as written; FALSE = mutant w/o state re-check
-          Fix6            \* BOOLEAN: FALSE = pinned tree; TRUE = repaired: the deadline is re-checked after the coroutine is published
+          Fix6,           \* BOOLEAN: FALSE = pinned tree; TRUE = repaired: the deadline is re-checked after the coroutine is published
+          FixReg          \* BOOLEAN: FALSE = pinned tree (cancel registration after the coroutine is published); TRUE = repaired
+                          \* (F24, see CancelReg.tla): registration first, the re-check takes the coroutine out of this slot itself
 
 VARIABLES state, waitCo, waitKernel, timeoutReg, handle, timers, nextId, now,
           cancelBit, cancelCo, para,
@@ -86,19 +88,23 @@ PCheckSwap ==
                  cancelBit, cancelCo, para>>
   /\ UNCH_K /\ UNCH_O
 
-(* while wait_kernel { yield_now() } : a nested coroutine yields back into K *)
-PSpinYield ==
-  /\ pcP = "park.spin_kernel" /\ waitKernel /\ co = "nested"
-  /\ co' = "queued"
-  /\ UNCHANGED <<state, waitCo, waitKernel, timeoutReg, handle, timers, nextId, now,
-                 cancelBit, cancelCo, para, pcP, phase, round, rets, owed>>
-  /\ UNCH_K /\ UNCH_O
-
-PSpinPass ==
-  /\ Running /\ pcP = "park.spin_kernel" /\ ~waitKernel
-  /\ pcP' = "park.store_timeout"
+(* while self.wait_kernel.load() { yield_now() } : the load and the yield are two steps - K may leave subscribe()
+   between them, the coroutine then yields once more than needed.  A nested coroutine yields back into K; a
+   coroutine that the timer thread or an unparker resumed on another worker while K is still inside subscribe()
+   spins the same way.  (Both facts were found by trace validation: TVPark rejected executions of the real Park
+   while the model had one atomic action that demanded co = "nested".) *)
+PSpinLoad ==
+  /\ Running /\ pcP = "park.spin_kernel"
+  /\ pcP' = IF waitKernel THEN "park.spin_yield" ELSE "park.store_timeout"
   /\ UNCHANGED <<state, waitCo, waitKernel, timeoutReg, handle, timers, nextId, now,
                  cancelBit, cancelCo, para, co, phase, round, rets, owed>>
+  /\ UNCH_K /\ UNCH_O
+
+PSpinYield ==
+  /\ Running /\ pcP = "park.spin_yield"
+  /\ co' = "queued" /\ pcP' = "park.spin_kernel"
+  /\ UNCHANGED <<state, waitCo, waitKernel, timeoutReg, handle, timers, nextId, now,
+                 cancelBit, cancelCo, para, phase, round, rets, owed>>
   /\ UNCH_K /\ UNCH_O
 
 PStoreTimeout ==
@@ -165,6 +171,8 @@ Resume ==
 -----------------------------------------------------------------------------
 (* kernel side: Park::subscribe, running on the worker after the switch *)
 KStep(from, to) == pcK = from /\ pcK' = to
+\* what follows the re-checks of state and deadline
+AfterRechecks == IF FixReg THEN "sub.recheck_cancel" ELSE "sub.set_cancel_co"
 UNCH_P == UNCHANGED <<pcP, phase, round, rets>>
 
 KTakeTimeout ==
@@ -191,21 +199,21 @@ KSetHandle ==
   /\ UNCH_P /\ UNCH_O
 
 KKernelOn ==
-  /\ KStep("sub.kernel_on", "sub.store_co")
+  /\ KStep("sub.kernel_on", IF FixReg THEN "sub.set_cancel_co" ELSE "sub.store_co")
   /\ waitKernel' = TRUE
   /\ UNCHANGED <<state, waitCo, timeoutReg, handle, timers, nextId, now,
                  cancelBit, cancelCo, para, co, kreg, deadline, owed>>
   /\ UNCH_P /\ UNCH_O
 
 KStoreCo ==
-  /\ KStep("sub.store_co", IF Recheck THEN "sub.recheck_state" ELSE "sub.set_cancel_co")
+  /\ KStep("sub.store_co", IF Recheck THEN "sub.recheck_state" ELSE AfterRechecks)
   /\ waitCo' = TRUE /\ co' = "slot"
   /\ UNCHANGED <<state, waitKernel, timeoutReg, handle, timers, nextId, now,
                  cancelBit, cancelCo, para, kreg, deadline, owed>>
   /\ UNCH_P /\ UNCH_O
 
 KRecheckState ==
-  /\ KStep("sub.recheck_state", IF state THEN "sub.fast_take" ELSE IF Fix6 THEN "sub.recheck_timeout" ELSE "sub.set_cancel_co")
+  /\ KStep("sub.recheck_state", IF state THEN "sub.fast_take" ELSE IF Fix6 THEN "sub.recheck_timeout" ELSE AfterRechecks)
   /\ UNCHANGED <<state, waitCo, waitKernel, timeoutReg, handle, timers, nextId, now,
                  cancelBit, cancelCo, para, co, kreg, deadline, owed>>
   /\ UNCH_P /\ UNCH_O
@@ -217,7 +225,7 @@ KRecheckTimeout ==
   /\ IF deadline > 0 /\ now >= deadline
        THEN /\ pcK' = "sub.kernel_off"
             /\ IF waitCo THEN waitCo' = FALSE /\ para' = "timeout" /\ co' = "nested" ELSE UNCHANGED <<waitCo, para, co>>
-       ELSE pcK' = "sub.set_cancel_co" /\ UNCHANGED <<waitCo, para, co>>
+       ELSE pcK' = AfterRechecks /\ UNCHANGED <<waitCo, para, co>>
   /\ UNCHANGED <<state, waitKernel, timeoutReg, handle, timers, nextId, now,
                  cancelBit, cancelCo, kreg, deadline, owed>>
   /\ UNCH_P /\ UNCH_O
@@ -231,17 +239,21 @@ KFastTake ==
   /\ UNCH_P /\ UNCH_O
 
 KSetCancelCo ==
-  /\ KStep("sub.set_cancel_co", "sub.recheck_cancel")
+  /\ KStep("sub.set_cancel_co", IF FixReg THEN "sub.store_co" ELSE "sub.recheck_cancel")
   /\ cancelCo' = TRUE
   /\ UNCHANGED <<state, waitCo, waitKernel, timeoutReg, handle, timers, nextId, now,
                  cancelBit, para, co, kreg, deadline, owed>>
   /\ UNCH_P /\ UNCH_O
 
-(* if cancel.is_canceled() { cancel.cancel() }  -- the inline cancel is 2 takes *)
+(* pinned tree: if cancel.is_canceled() { cancel.cancel() }  -- the inline cancel is 2 takes;
+   repaired (FixReg): if cancel.is_canceled() { take the coroutine out of this Park's slot, Canceled, schedule } *)
 KRecheckCancel ==
-  /\ KStep("sub.recheck_cancel", IF cancelBit THEN "sub.c_take_slot" ELSE "sub.kernel_off")
-  /\ UNCHANGED <<state, waitCo, waitKernel, timeoutReg, handle, timers, nextId, now,
-                 cancelBit, cancelCo, para, co, kreg, deadline, owed>>
+  /\ KStep("sub.recheck_cancel", IF cancelBit /\ ~FixReg THEN "sub.c_take_slot" ELSE "sub.kernel_off")
+  /\ IF FixReg /\ cancelBit /\ waitCo
+       THEN waitCo' = FALSE /\ para' = "canceled" /\ co' = "queued"
+       ELSE UNCHANGED <<waitCo, para, co>>
+  /\ UNCHANGED <<state, waitKernel, timeoutReg, handle, timers, nextId, now,
+                 cancelBit, cancelCo, kreg, deadline, owed>>
   /\ UNCH_P /\ UNCH_O
 
 KCTakeSlot ==
@@ -328,7 +340,7 @@ Quiet    == /\ \A u \in Unparkers : pcU[u] = "done"
 Stutter == Finished /\ Quiet /\ UNCHANGED vars
 
 Next ==
-  \/ PCheckLoad \/ PCheckStore \/ PCheckSwap \/ PSpinYield \/ PSpinPass \/ PStoreTimeout
+  \/ PCheckLoad \/ PCheckStore \/ PCheckSwap \/ PSpinLoad \/ PSpinYield \/ PStoreTimeout
   \/ PYield \/ PYieldBack \/ PRmHandle \/ PReadPara \/ Resume
   \/ KTakeTimeout \/ KAddTimer \/ KSetHandle \/ KKernelOn \/ KStoreCo \/ KRecheckState
   \/ KRecheckTimeout \/ KFastTake \/ KSetCancelCo \/ KRecheckCancel \/ KCTakeSlot \/ KCTakeCo \/ KKernelOff
